@@ -21,7 +21,7 @@ Print Assumptions C10_inv_step_I1.
 
 Theorem C10_inv_reachable_I1 : forall pool cs, Forall (call_in_pool pool) cs ->
   exists s', exec pool NewState cs = Ok s' /\ I1 s'.
-Proof. intros pool cs H. exact (I1_reachable pool cs NewState I1_new H). Qed.
+Proof. exact I1_reachable_new. Qed.
 Print Assumptions C10_inv_reachable_I1.
 
 (* no call of any history panics, nor does Open() after it: every slice expression of state.go is in
@@ -29,7 +29,7 @@ Print Assumptions C10_inv_reachable_I1.
 Theorem C10_never_panics : forall pool cs, Forall (call_in_pool pool) cs ->
   length (run pool NewState cs) = length cs /\
   Forall (fun o => exists ob l, o = Some ob /\ o_open ob = Ok l) (run pool NewState cs).
-Proof. intros pool cs H. exact (never_panics pool cs NewState I1_new H). Qed.
+Proof. exact never_panics_new. Qed.
 Print Assumptions C10_never_panics.
 
 (* the remaining slice / index expressions, which the model writes with total list functions
@@ -147,7 +147,7 @@ Print Assumptions C10_inv_step.
 
 Theorem C10_inv_reachable : forall pool cs, Forall (call_in_pool pool) cs ->
   exists sg', gexec pool (NewState, g0) cs = Ok sg' /\ Inv sg'.
-Proof. intros pool cs H. exact (inv_reachable pool cs _ Inv_new H). Qed.
+Proof. exact inv_reachable_new. Qed.
 Print Assumptions C10_inv_reachable.
 
 Theorem C10_ghost_is_observer : forall pool cs s g s' g',
